@@ -121,7 +121,34 @@ HasK1(x) ==
 FirstAdvAlways(x) == TRUE
 FirstAdvNoQ2(x)   == ~HasMustShouldMin(x)
 
+\* quick families: at most two distinct terms (64 postings pairs instead of 4096 triples)
+MaxTerm(x) == LET ts == TermSeq(x) IN IF Len(ts) = 0 THEN 0 ELSE CHOOSE m \in { ts[i] : i \in DOMAIN ts } : \A i \in DOMAIN ts : ts[i] <= m
+QFlat2 == { x \in QFlat : MaxTerm(x) <= 2 }
+QDisj2 == { x \in QDisj : MaxTerm(x) <= 2 }
+\* depth-2 shapes chosen after the code's interesting paths: a boolean advanced by a
+\* conjunction (DESIGN lead 2), optimisable disjunctions/conjunctions nested in
+\* conjunctions/disjunctions/booleans, compound must-not and filter clauses
+QDeepQuick ==
+    { Conj(<< T(3), Bool(<< T(1) >>, << T(2) >>, m, << >>, << >>) >>) : m \in 0..1 }
+    \cup { Conj(<< Bool(<< T(1) >>, << >>, 0, << T(2) >>, << >>), T(3) >>) }
+    \cup { Conj(<< Disj(<< T(1), T(2) >>, m), T(3) >>) : m \in 0..2 }
+    \cup { Disj(<< Conj(<< T(1), T(2) >>), T(3) >>, m) : m \in 0..2 }
+    \cup { Disj(<< T(3), Disj(<< T(1), T(2) >>, 2) >>, 1), Conj(<< Conj(<< T(1), T(2) >>), T(3) >>),
+           Conj(<< Disj(<< T(1) >>, 1), T(2) >>), Disj(<< Disj(<< T(1) >>, 1), T(2) >>, 1) }
+    \cup { Bool(<< Disj(<< T(1), T(2) >>, 1) >>, << >>, 0, << T(3) >>, << >>),
+           Bool(<< T(3) >>, << >>, 0, << Conj(<< T(1), T(2) >>) >>, << >>),
+           Bool(<< T(3) >>, << >>, 0, << >>, << Disj(<< T(1), T(2) >>, 1) >>),
+           Bool(<< >>, << >>, 0, << >>, << Conj(<< T(1), T(2) >>) >>),
+           Bool(<< >>, << Conj(<< T(1), T(2) >>), T(3) >>, 1, << >>, << >>),
+           Bool(<< T(3) >>, << Conj(<< T(1), T(2) >>) >>, 1, << >>, << >>),
+           Bool(<< >>, << T(3) >>, 0, << Disj(<< T(1), T(2) >>, 2) >>, << >>) }
+
 QFlatNoK1 == { x \in QFlat : ~HasK1(x) }
+QFlat2NoK1 == { x \in QFlat2 : ~HasK1(x) }
+QDeepQuickNoK1 == { x \in QDeepQuick : ~HasK1(x) }
+QTerm == { T(1) }
+QReplay == QFlat2 \cup QDeepQuick
+QReplayNoK1 == { x \in QReplay : ~HasK1(x) }
 QDeepNoK1 == { x \in QDeep : ~HasK1(x) }
 QK1 == { x \in QBool : HasK1(x) }
 QQ2 == { x \in QBool : HasMustShouldMin(x) }
